@@ -224,6 +224,7 @@ def run(tier):
         chk.clause('C01.kern.index', 'abstract interpretation of the supernodal update kernels in a polynomial index domain: every access to the supernode block is the entry the algebra needs')
         for _p in 'ds':
             r12_supernodal.run(chk, 'C01.kern.index', prog, _p, cfgname)
+            r12_supernodal.run_snode(chk, 'C01.kern.index', prog, _p, cfgname)
         chk.clause('C01.kern.copy', 'growth of factor storage carries the old contents over')
         expand.copy_helper_rule(chk, 'C01.kern.copy', prog, cfgname)
         if n1 < 4 * 24 or n2 < 4 * 3:
